@@ -34,6 +34,7 @@ fn rec(vm: &mut Vm<Host>, name: &str, args: Vec<Obs>) -> Value {
         stack_height: vm.runtime_data.verif_stack_height(),
         call_depth: vm.runtime_data.verif_call_depth(),
         dispatches: ctl.counters().dispatches,
+        allocs: ctl.counters().allocs,
     });
     Value::Integer(1000 + k as i64)
 }
@@ -164,6 +165,7 @@ fn reenter_n(vm: &mut Vm<Host>, name: &str, f: Value, args: &[Value]) -> R {
         stack_height: h1,
         call_depth: d1,
         dispatches: ctl.counters().dispatches,
+        allocs: ctl.counters().allocs,
     });
     ctl.host_exit();
     r
